@@ -36,8 +36,8 @@ type Frame struct {
 	Panicked    bool
 	InDefer     int             // >0 while running deferred calls; value = index+1 of next defer to run
 	AfterDefers func(st *State) // continuation after the defer stack has been run
-	RetTo   *Value
-	AfterSite func(st *State, rv Value)
+	RetTo       *Value
+	AfterSite   func(st *State, rv Value)
 	Depth       int
 }
 
@@ -75,8 +75,8 @@ type State struct {
 	Old         *State // entry snapshot for old()
 	Ghosts      map[string]*Term
 	Events      []string // ordered effect log (lock/unlock/calls) for path obligations
-	monObjs  map[string]monObj
-	lockSnap map[string]*State
+	monObjs     map[string]monObj
+	lockSnap    map[string]*State
 	// HLog records every bulk havoc of heap fields / memories on this path, so that a key that is
 	// first touched after the havoc does not silently denote its entry value.
 	HLog []*havocEvent
